@@ -45,6 +45,18 @@ def ender(kind):
         raise KeyboardInterrupt()
     if kind == 'error':
         raise ValueError('boom')
+
+import functools
+def logged(fn):
+    @functools.wraps(fn)
+    def wrapper(*a):
+        r = fn(*a)
+        return r
+    return wrapper
+
+@logged
+def deco(n):
+    return n + 5
 '''
 MODSRC = '''
 def mf(n):
@@ -98,7 +110,7 @@ def run_case(c, d):
     if c['T']:
         line += ' -T %s' % tfile
     kind = c['stmt_kind']
-    stmt = ('res = h(4); res2 = K().meth(2); res5 = sq(3) + cube(2) + cube(1); import lpv_mod; res3 = lpv_mod.mg(3) + lpv_mod.Child().run(2); import lpv_pkg.sub; res4 = lpv_pkg.ptop(1) + lpv_pkg.sub.pinner(2); '
+    stmt = ('res = h(4); res2 = K().meth(2); res5 = sq(3) + cube(2) + cube(1); res6 = deco(1); import lpv_mod; res3 = lpv_mod.mg(3) + lpv_mod.Child().run(2); import lpv_pkg.sub; res4 = lpv_pkg.ptop(1) + lpv_pkg.sub.pinner(2); '
             'ender(%r); after = 1' % kind)
     line += ' ' + stmt
     del PAGES[:]
@@ -141,7 +153,7 @@ def run_case(c, d):
     elif c['T']:
         r['T_text'] = None
     builtins.__dict__.pop('profile', None)
-    for k in ('res', 'res2', 'res3', 'res4', 'res5', 'after', 'lpv_mod', 'lpv_pkg'):
+    for k in ('res', 'res2', 'res3', 'res4', 'res5', 'res6', 'after', 'lpv_mod', 'lpv_pkg'):
         ip.user_ns.pop(k, None)
     return r
 
